@@ -120,6 +120,9 @@ pub struct Exclusions {
     pub clear_with_shadow: bool,
     /// known finding: Entry::remove never drops the detached value
     pub entry_remove_leak: bool,
+    /// known findings of the failed-deserialization leak oracle: prefixes of
+    /// `deser-leak:<row-wise|column-wise>:<error class>` that are not reported
+    pub deser_leak_known: Vec<String>,
 }
 
 pub struct Interp<R: Reg> {
